@@ -95,7 +95,7 @@ func main() {
 	}
 	var jobs []job
 	if run.Quick() {
-		for _, c := range pickQuick(run.Rand("select"), all, 72) {
+		for _, c := range pickQuick(run.Rand("select"), all, 86) {
 			jobs = append(jobs, job{c, 0})
 			if staleShape(c) {
 				// the outcome of this shape depends on the order in which the tool visits the target's
@@ -172,7 +172,13 @@ func pickQuick(r *rand.Rand, all []combo, n int) []combo {
 		if c.Pid == "nofields" && c.Cache == "natural" && (c.Src == "same" || c.Src == "failover-late") {
 			add(c) // no position, complete cached snapshot, the source still grants the cache's end
 		}
-		if c.Drop && c.Src == "failover-early" {
+		if c.Drop && c.Src == "failover-early" && c.TFault == "" {
+			add(c)
+		}
+		if c.TFault == "reset" && c.Src == "failover-early" {
+			add(c) // 4: both backends, restart and in-loop
+		}
+		if c.TFault == "setrunid" && (c.Src == "failover-early" || (c.Src == "failover-late" && !c.Drop && c.Backend == "disk")) {
 			add(c)
 		}
 	}
@@ -216,7 +222,7 @@ func pickQuick(r *rand.Rand, all []combo, n int) []combo {
 // staleShape: a failover to a node that may be behind the stored position, decided by a cache
 // under the first id (full resynchronisation at an offset below the old position).
 func staleShape(c combo) bool {
-	return c.Src == "failover-early" && c.Cache == "natural" && c.Pid == "id1" && c.Prel == "at-right"
+	return c.Src == "failover-early" && c.Cache == "natural" && c.Pid == "id1" && c.Prel == "at-right" && c.TFault == ""
 }
 
 func dims(c combo) []string {
@@ -308,7 +314,8 @@ func oneCase(run *harness.Run, key string, c combo, tmp string, n int) {
 		}
 		reqFrom, psFrom := len(src1.Requests()), len(src1.Source().PsyncLog())
 		n0 = len(cr.tgt.Applied())
-		src1.Source().Reconfigure(p.sourceConfig(cr.psyncStamp))
+		cr.armTargetFault()
+		src1.Source().Reconfigure(p.sourceConfig(cr.psyncStamp, cr.onPsync))
 		if p.DropAfter > 0 {
 			src1.Source().DropReplicaAfter(p.DropAfter)
 		}
@@ -402,7 +409,8 @@ func oneCase(run *harness.Run, key string, c combo, tmp string, n int) {
 		// ---------------- mutate: source (a new node at a new address)
 		src2 = fakeredis.MustStart(fakeredis.Options{})
 		defer src2.Close()
-		src2.EnableSource(p.sourceConfig(cr.psyncStamp))
+		cr.armTargetFault()
+		src2.EnableSource(p.sourceConfig(cr.psyncStamp, cr.onPsync))
 		if p.DropAfter > 0 {
 			src2.Source().DropReplicaAfter(p.DropAfter)
 		}
@@ -416,6 +424,13 @@ func oneCase(run *harness.Run, key string, c combo, tmp string, n int) {
 	}
 	stopErr, stopped := t2.stop()
 	_ = stopErr
+	if c.TFault != "" {
+		cr.tgt.SetHooks(nil, nil, nil)
+		run.Count("target_fault_error_replies", cr.faultErrors.Load())
+		if cr.faultErrors.Load() == 0 {
+			run.Count("target_fault_scenarios_where_the_fault_never_fired", 1)
+		}
+	}
 
 	// ---------------- judge the reconnect
 	v := judge(p, pre, s2)
@@ -452,7 +467,8 @@ func oneCase(run *harness.Run, key string, c combo, tmp string, n int) {
 
 	witness := func() map[string]any {
 		w := map[string]any{
-			"combination": c.Label(), "constructed": p.Constructed, "source_cuts_first_replica_connection_after_bytes": p.DropAfter, "fresh_disk_object": p.FreshDisk, "new_history_has_boundary_at_P": p.Aligned, "new_master_behind_stored_position": p.Behind,
+			"combination": c.Label(), "constructed": p.Constructed, "source_cuts_first_replica_connection_after_bytes": p.DropAfter,
+			"target_fault": fmt.Sprintf("%s k=%d n=%d error_replies=%d", c.TFault, p.TFaultK, p.TFaultN, cr.faultErrors.Load()), "fresh_disk_object": p.FreshDisk, "new_history_has_boundary_at_P": p.Aligned, "new_master_behind_stored_position": p.Behind,
 			"first_id": p.ID1, "first_history": fmt.Sprintf("[%d,%d) live part ends %d", p.B1, p.H1.End(), p.L1End),
 			"source2": fmt.Sprintf("replid=%s replid2=%s switch_offset=%d (second_replid_offset=%d) history=[%d,%d) live from %d backlog_off(redis)=%d",
 				p.H2.ReplID, p.SrcID2, p.S, p.S+1, p.H2.Base, p.H2.End(), p.LiveFrom, p.BacklogOff),
@@ -493,7 +509,21 @@ func oneCase(run *harness.Run, key string, c combo, tmp string, n int) {
 		}
 		run.Seen("refusals", c.Label()+": "+s2.Ended+" "+firstLine(s2.RunErr)+note)
 	default:
-		if len(v.Findings) == 0 {
+		allFull := s2.Ended == "churn"
+		for _, e := range s2.Psync {
+			if e.Continue {
+				allFull = false
+			}
+		}
+		switch {
+		case len(v.Findings) > 0:
+		case allFull:
+			// the tool takes one full resynchronisation after the other (decided by count: churnPsyncs
+			// answers, every one +FULLRESYNC, nothing inadmissible delivered): fail-safe with respect to
+			// this property, recorded
+			run.Count("reconnects_stuck_in_repeated_full_resyncs", 1)
+			run.Seen("repeated_full_resyncs", c.Label()+": "+s2.Psync[len(s2.Psync)-1].String())
+		default:
 			run.Inconclusive("%s: second session did not complete: %s (psync %v, outcome %s)", key, s2.Ended, psyncStrings(s2.Psync), v.Outcome)
 		}
 	}
@@ -501,7 +531,7 @@ func oneCase(run *harness.Run, key string, c combo, tmp string, n int) {
 		run.Inconclusive("%s: the tool did not stop", key)
 	}
 	if len(s2.Psync) > 0 || s2.Ended == "refused" {
-		run.Distinct(fmt.Sprintf("%s|%s|%s|%s|%s|drop=%v|%s", c.Src, posC, cacheC, c.Backend, c.Restart, c.Drop, v.Outcome))
+		run.Distinct(fmt.Sprintf("%s|%s|%s|%s|%s|drop=%v|tfault=%s|%s", c.Src, posC, cacheC, c.Backend, c.Restart, c.Drop, c.TFault, v.Outcome))
 	}
 	if len(v.Findings) == 0 && s2.Ended == "sentinel" {
 		run.Sample(map[string]any{"case": key, "constructed": p.Constructed, "position": posC, "cache": cacheC, "psync": psyncStrings(s2.Psync),
